@@ -23,7 +23,7 @@ RULE = ("Hypothesis: general graphs x {instances_cap in 1..max class size+1 with
         "with a run on the filtered document whose instances come from the full graph.  Non-trivial: cap below some class size, "
         "or >=1 ignored and >=1 kept predicate; distinct by SHA-1 of the case.")
 ASSUMPTIONS = c01.ASSUMPTIONS
-BUDGET = {"quick": {"examples": 12000, "wall": 150}, "thorough": {"examples": 400000, "wall": 5400}}
+BUDGET = {"quick": {"examples": 12000, "wall": 150}, "thorough": {"examples": 150000, "wall": 900}}
 FLOORS = {"nontrivial": 0.2, "mode:cap": 0.2, "mode:ns": 0.15, "differential-compared": 0.1, "cap-bites": 0.1}
 KNOWN = ("C01-NONLIT", "C01-NONLIT-KLS", "C02-MIXEDKIND", "C02-GONEREF")
 NS_CHOICES = ["http://ex.org/", "http://ex.org/ns/", "http://other.org/v#", RDF, "http://ex.org/n", "http://nowhere.org/",
